@@ -88,6 +88,9 @@ func runC03(c *Ctx) {
 		r.Order("C03-P3", u, an.Return().Where("not an error return", func(u *an.Unit, s *an.Site) bool { return !an.ErrorReturn(u, s) }),
 			[]an.M{an.Call("pkg/fileutil.Fdatasync")}, an.OrderOpts{Assume: "p0", Min: 2})
 		r.Order("C03-P3", u, an.Call("pkg/fileutil.Fdatasync"), []an.M{an.Call("wal.(*encoder).flush")}, an.OrderOpts{Success: an.NilErr, Assume: "recv.encoder != nil", Min: 1})
+		// also without fsync the buffered records are handed to the file (they survive a killed process)
+		r.Order("C03-P3", u, an.Return().Where("not an error return", func(u *an.Unit, s *an.Site) bool { return !an.ErrorReturn(u, s) }),
+			[]an.M{an.Call("wal.(*encoder).flush")}, an.OrderOpts{Assume: "recv.encoder != nil", Min: 2})
 	}
 	// P4
 	if u := c.unit("C03-P4", "raft.(*raft).hardState"); u != nil {
